@@ -50,6 +50,11 @@ fn op_of(o: u8) -> Operation {
 impl Prop for C10 {
     type Case = Case;
     const ID: &'static str = "C10";
+    const FUZZ_TARGET: Option<&'static str> = Some("ws_ops");
+    const FUZZ_RUNS: u64 = 4000000;
+    fn fuzz_decode(bytes: &[u8]) -> Option<Case> {
+        crate::fuzzdec::c10(bytes)
+    }
     const RULE: &'static str = "(a) sequences of 0-12 non-whitespace characters (code-point mode: any non-whitespace code point incl. combining marks, joiners, regional indicators; grapheme mode: closed-pool clusters) with two independent placements of single spaces -> clean `from`/`to`; (b) arbitrary Unicode strings (unclean, all White_Space code points, CRLF, hazards) x arbitrary operation vectors of matching or mismatching length; (c) arbitrary pairs for totality. Oracle: operations() is Ok with one entry per character and repair(from, operations(from,to)) == to; repair preserves the sequence of non-whitespace code points; all-Keep is the identity; length mismatch is Err; nothing panics. Non-trivial: (a) the operations contain both an Insert and a Delete and the text has a multi-byte character; (b) ops contain Insert and Delete on a text with whitespace and a multi-byte character. Distinct = distinct serialised case.";
     const ESSENTIAL: &'static [&'static str] = &["inverse", "repair", "total", "insert+delete", "multibyte", "length_mismatch", "graphemes", "code_points"];
 
